@@ -2059,3 +2059,22 @@ Lemma round_robin_rejects_out_of_turn :
   ~ accepts (rpre 3) (rpost 3) (mkRr KUseToken 0 0)
       [HCall (CallTransmit 0 false None); HCall (CallTransmit 2 false None)].
 Proof. cbn. intros [_ [[C _] _]]. discriminate C. Qed.
+
+(* the hypotheses of the history theorems are satisfiable from a new station: it goes online, listens,
+   and claims the token after its time-out - a run of the model that is Ok *)
+Definition demo_init_events : list (event nat) :=
+  [EvOnline nat; EvPoll nat 0 (mkPhyIn false []); EvPoll nat 10000000 (mkPhyIn false []);
+   EvPoll nat 10000100 (mkPhyIn true []); EvUser nat (fun a => a); EvOffline nat; EvOnline nat;
+   EvPoll nat 10000200 (mkPhyIn false [])].
+
+Lemma demo_from_init : exists f0, fdl_new demo_params = Ok f0 /\
+  is_ok (run nat demo_ops f0 [0%nat] demo_init_events) = true.
+Proof.
+  destruct (fdl_new demo_params) as [f0| |] eqn:E.
+  - exists f0. split; [reflexivity|].
+    assert (E' : match fdl_new demo_params with Ok f0 => is_ok (run nat demo_ops f0 [0%nat] demo_init_events) | _ => false end = true)
+      by (vm_compute; reflexivity).
+    rewrite E in E'. exact E'.
+  - assert (E' : is_ok (fdl_new demo_params) = true) by (vm_compute; reflexivity). rewrite E in E'. discriminate E'.
+  - assert (E' : is_ok (fdl_new demo_params) = true) by (vm_compute; reflexivity). rewrite E in E'. discriminate E'.
+Qed.
